@@ -170,7 +170,7 @@ class Engine:
     def reset_stats(self):
         self.steps = 0; self.paths = 0; self.queries = 0; self.qtime = 0.0; self.forks = 0; self.qcache = {}
         self.violations = []; self.cover_wit = {}; self.fcalls = collections.Counter(); self.samples = []
-        self.inconclusive = []; self.solver = None; self.max_steps_seen = 0; self.ended = 0; self.pruned = 0
+        self.inconclusive = []; self.solver = None; self.max_steps_seen = 0; self.ended = 0; self.pruned = 0; self.xq = []
         self.sched_points = 0; self.max_threads = 1; self.cache_hits = 0; self.deadlocks = 0
 
     # ------------------------------------------------------------------ preparation
@@ -487,6 +487,9 @@ class Engine:
             for c in st.pc: s.add(c)
             if extra is not None: s.add(extra)
             res = s.check(); self.queries += 1
+            if len(self.xq) < 3 and self.queries % 13 == 1 and res != z3.unknown:
+                try: self.xq.append((s.to_smt2(), str(res)))        # sampled for the second-solver cross-check (driver: cvc5)
+                except Exception: pass
             if res == z3.sat: out = (True, s.model(), extra, st.pc[:])
             elif res == z3.unsat: out = (False, None, extra, None)
             else: raise Inconclusive('solver returned %s (%s)' % (res, s.reason_unknown()))
@@ -1518,7 +1521,7 @@ def _worker(i):
     return {'steps': eng.steps, 'paths': eng.paths, 'queries': eng.queries, 'qtime': eng.qtime, 'forks': eng.forks,
             'violations': eng.violations[:50], 'nviol': len(eng.violations), 'cover_wit': eng.cover_wit, 'fcalls': dict(eng.fcalls), 'samples': eng.samples[:2],
             'inconclusive': eng.inconclusive[:20], 'max_steps_seen': eng.max_steps_seen, 'ended': eng.ended, 'pruned': eng.pruned,
-            'sched_points': eng.sched_points, 'max_threads': eng.max_threads, 'cache_hits': eng.cache_hits, 'deadlocks': eng.deadlocks}
+            'sched_points': eng.sched_points, 'max_threads': eng.max_threads, 'cache_hits': eng.cache_hits, 'deadlocks': eng.deadlocks, 'xq': eng.xq[:3]}
 
 
 def run(eng, nproc=16, budget_s=None, seed_frontier=None):
@@ -1537,7 +1540,7 @@ def run(eng, nproc=16, budget_s=None, seed_frontier=None):
     tot = {'steps': eng.steps, 'paths': eng.paths, 'queries': eng.queries, 'qtime': eng.qtime, 'forks': eng.forks,
            'violations': list(eng.violations), 'nviol': len(eng.violations), 'cover_wit': dict(eng.cover_wit), 'fcalls': collections.Counter(eng.fcalls),
            'samples': list(eng.samples), 'inconclusive': list(eng.inconclusive), 'max_steps_seen': eng.max_steps_seen, 'ended': eng.ended,
-           'pruned': eng.pruned, 'sched_points': eng.sched_points, 'max_threads': eng.max_threads, 'cache_hits': eng.cache_hits, 'deadlocks': eng.deadlocks}
+           'pruned': eng.pruned, 'sched_points': eng.sched_points, 'max_threads': eng.max_threads, 'cache_hits': eng.cache_hits, 'deadlocks': eng.deadlocks, 'xq': list(eng.xq)}
     if work:
         _G['eng'] = eng; _G['frontier'] = work; _G['deadline'] = deadline
         ctx = mp.get_context('fork')
@@ -1549,6 +1552,7 @@ def run(eng, nproc=16, budget_s=None, seed_frontier=None):
                 tot['fcalls'].update(r['fcalls'])
                 if len(tot['samples']) < 8: tot['samples'] += r['samples']
                 tot['inconclusive'] += r['inconclusive']
+                if len(tot['xq']) < 40: tot['xq'] += r['xq']
                 tot['max_steps_seen'] = max(tot['max_steps_seen'], r['max_steps_seen']); tot['max_threads'] = max(tot['max_threads'], r['max_threads'])
     tot['wall'] = time.time() - t0; tot['subtrees'] = len(work)
     return tot
